@@ -791,6 +791,7 @@ func vPubCase(r *vrng, out *vWriter, ci int, finding bool) {
 					ev["end"] = int64(lf.endingFeeRate)
 					ev["width"] = lf.width
 					ev["delta"] = int64(lf.deltaFeeRate)
+					ev["fstart"] = int64(lf.startingFeeRate)
 				}
 			}
 			ev["recfee"] = int64(rec.fee)
@@ -963,5 +964,8 @@ func TestVerifFee(t *testing.T) {
 		vSetCase(master.fork(uint64(ci)), out, ci)
 		ci++
 	}
+	// composed sweeper -> aggregator -> input set -> publisher -> fee
+	// function histories (verif_sweeper_test.go)
+	vSweeperCases(master, out, &ci, 128, vCases(60, 2500))
 	_ = fmt.Sprintf
 }
